@@ -23,7 +23,7 @@ func (c03) regularCases(tier string) int {
 	}
 	return len(families) + 4000
 }
-func (p c03) NumCases(tier string) int { return p.regularCases(tier) + tinyCases(tier) }
+func (p c03) NumCases(tier string) int               { return p.regularCases(tier) + tinyCases(tier) }
 func (c03) Extra(tier string) map[string]interface{} { return tinyExtra(tier) }
 func (c03) Rule() string {
 	return "case = one grammar (curated LR(0)/SLR/LALR/NQLALR/LR(1) separating families, then random grammars with and without precedence lines) built by the real ParseAndBuild; hook VerifReduceLookaheads gives yaccgo's lookahead set per (state, rule); compared with the union of canonical LR(1) lookaheads over same-core states (reference computed from yaccgo's own rule list, states matched by item set); conflict warnings on stdout compared with the reference's unresolved two-candidate cells; non-trivial = at least one reduction whose LALR set is a proper subset of the SLR FOLLOW set, or a conflict cell; distinct by grammar text"
